@@ -112,6 +112,19 @@ def run(ctx):
             for p in sm.paths:
                 names = set(e[1] for _, e in sk_calls(p))
                 rep.ob('R18.1', '%s uses only %s on the external key' % (gp.split('::')[-1], sorted(allowed) or 'nothing'), names <= allowed, str(sorted(names)), where_of(sm), sn)
+        # R18.5 a reloaded / imported key pair gets its public key from the external key itself
+        for gp in ('opaque_ke::keypair::KeyPair::<KG, S>::from_private_key_slice', 'opaque_ke::keypair::KeyPair::<KG, S>::from_private_key'):
+            if gp not in S.by_generic:
+                continue
+            sm = ctx.summary(sn, gp, select='RemoteKey')
+            for p in sm.ok_paths:
+                f = fields(p.payload)
+                pks = [v for v in f.values() if v is not None and v[0] == 'fld' and v[2] == '0' and v[1][0] == 'as' and v[1][2] == 'Ok' and v[1][1][0] == 'app'
+                       and v[1][1][1] == 'SecretKey::public_key']
+                sks = [v for v in f.values() if v not in pks]
+                good = len(pks) == 1 and len(sks) == 1 and pks[0][1][1][2][0] == sks[0]
+                rep.ob('R18.5', '%s: the public key of the pair is the external key\'s own public_key() of the stored key' % gp.split('::')[-1], good,
+                       'pair = %s' % show(p.payload)[:300], where_of(sm), sn)
         # CG: which RemoteKey items are reachable at all
         items = set()
         for n in list(S.bodies.values()) + list(S.leaves.values()):
